@@ -195,6 +195,10 @@ Definition parse_authority (a : bytes) : aresult :=
 
 Definition starts_with (p : string) (s : bytes) : bool := has_prefix (bs p) s.
 
+(* strings.HasSuffix(s, "c") without List.rev (quadratic) *)
+Definition ends_with (c : byte) (s : bytes) : bool :=
+  match s with [] => false | _ => beqb (last s x00) c end.
+
 Definition parse_url (raw : bytes) : presult :=
   let '(u, fr) := cut_at "#"%byte raw in
   let frag := match fr with Some f => f | None => [] end in
@@ -209,7 +213,7 @@ Definition parse_url (raw : bytes) : presult :=
   | Some (scheme0, rest0) =>
     let scheme := to_lower scheme0 in
     let '(rest1, forceq, rawq) :=
-      if has_suffix (bs "?") rest0 && Nat.eqb (count_byte "?"%byte rest0) 1
+      if ends_with "?"%byte rest0 && Nat.eqb (count_byte "?"%byte rest0) 1
       then (firstn (length rest0 - 1) rest0, true, [])
       else match cut_at "?"%byte rest0 with
            | (a, Some q) => (a, false, q)
